@@ -546,9 +546,11 @@ func TestCliExec(t *testing.T) {
 		}
 		w.Flush()
 		_ = os.WriteFile(outFile+".progress", []byte(strconv.Itoa(idx)+" "+s.ID+"\n"), 0o644)
+		stop := watchdog(s.ID)
 		synctest.Test(t, func(t *testing.T) {
 			x.run(&s)
 		})
+		close(stop)
 		w.Flush()
 	}
 	_ = os.WriteFile(outFile+".progress", []byte("done\n"), 0o644)
